@@ -266,6 +266,9 @@ fn second_declaration_cases() -> Vec<(Vec<&'static str>, &'static str)> {
         (vec!["(import (scheme base) (prefix (t twins) p-) (prefix (t twins) q-))"], "@(list p-x q-x p-y q-y (p-p) (q-q))=(1/2 1/2 0.5 0.5 1 2)"),
         (vec!["(import (scheme base) (prefix (t twins) p-))", "(import (prefix (t twins) q-))"], "@(list p-x q-x (p-p) (q-q))=(1/2 1/2 1 2)"),
         (vec!["(import (scheme base) (prefix (t twins) q-))", "(import (prefix (t twins) p-) (prefix (prefix (t twins) a-) b-))"], "@(list p-x q-x b-a-y)=(1/2 1/2 0.5)"),
+        // the same declaration again after another one re-bound one of its names
+        (vec!["(import (scheme base) (t twins))", "(import (rename (only (t twins) y) (y x)))", "(import (scheme base) (t twins))"], "(1/2 0.5 1 2)"),
+        (vec!["(import (scheme base))", "(import (t twins))", "(import (rename (t twins) (p q) (q p)))", "(import (t twins))"], "(1/2 0.5 1 2)"),
         // only over a prefix whose text is also the beginning of an exported name
         (vec!["(import (scheme base) (only (prefix (t twins) x) xx xy))"], "@(list xx xy)=(1/2 0.5)"),
         (vec!["(import (scheme base) (only (prefix (prefix (t twins) p) p) ppp ppq ppx))"], "@(list (ppp) (ppq) ppx)=(1 2 1/2)"),
